@@ -158,4 +158,64 @@ Proof.
     assert (0 <= of_le_bytes l) by (apply IH; intros; apply Hl; right; assumption). lia. }
   apply G. intros b Hin. apply Hb. rewrite <- (firstn_skipn nb bs). apply in_or_app. left. exact Hin.
 Qed.
+(* converse: a successful read consumed exactly the canonical encoding of what it returns *)
+Lemma to_of_le_bytes : forall l, (forall b, In b l -> 0 <= b < 256) -> to_le_bytes (length l) (of_le_bytes l) = l.
+Proof.
+  induction l as [|x l IH]; intros Hl; [reflexivity|].
+  cbn [length to_le_bytes of_le_bytes].
+  assert (Hx : 0 <= x < 256) by (apply Hl; left; reflexivity).
+  replace ((x + 256 * of_le_bytes l) mod 256) with x.
+  2:{ replace (x + 256 * of_le_bytes l) with (x + of_le_bytes l * 256) by ring.
+      rewrite Z.mod_add by lia. symmetry. apply Z.mod_small. exact Hx. }
+  replace ((x + 256 * of_le_bytes l) / 256) with (of_le_bytes l).
+  2:{ replace (x + 256 * of_le_bytes l) with (x + of_le_bytes l * 256) by ring.
+      rewrite Z.div_add by lia. rewrite (Z.div_small x 256) by exact Hx. lia. }
+  f_equal. apply IH. intros b Hb. apply Hl. right. exact Hb.
+Qed.
+
+Lemma base_read_inv : forall bs v rest, (forall b, In b bs -> 0 <= b < 256) ->
+  base_read p nb bs = Some (v, rest) -> bs = base_write nb v ++ rest /\ 0 <= v < p /\ (forall b, In b rest -> 0 <= b < 256).
+Proof.
+  intros bs v rest Hb. unfold base_read, base_write.
+  destruct (Nat.ltb (length bs) nb) eqn:El; [discriminate|]. apply Nat.ltb_ge in El.
+  destruct (Z.leb p (of_le_bytes (firstn nb bs))) eqn:E; [discriminate|].
+  intros H. injection H as <- <-. apply Z.leb_gt in E.
+  assert (Hf : forall b, In b (firstn nb bs) -> 0 <= b < 256).
+  { intros b Hin. apply Hb. rewrite <- (firstn_skipn nb bs). apply in_or_app. left. exact Hin. }
+  split; [|split].
+  - rewrite <- (firstn_length_le bs El) at 1. rewrite (to_of_le_bytes _ Hf). symmetry. apply firstn_skipn.
+  - split; [|exact E].
+    assert (G : forall l, (forall b, In b l -> 0 <= b < 256) -> 0 <= of_le_bytes l).
+    { induction l as [|x l IH]; intros Hl; cbn [of_le_bytes]; [lia|].
+      assert (0 <= x < 256) by (apply Hl; left; reflexivity).
+      assert (0 <= of_le_bytes l) by (apply IH; intros; apply Hl; right; assumption). lia. }
+    apply G. exact Hf.
+  - intros b Hin. apply Hb. rewrite <- (firstn_skipn nb bs). apply in_or_app. right. exact Hin.
+Qed.
+
+Theorem q_read_inv : forall bs a rest, (forall b, In b bs -> 0 <= b < 256) ->
+  q_read p nb bs = Some (a, rest) -> bs = q_write nb a ++ rest /\ 0 <= fst a < p /\ 0 <= snd a < p.
+Proof.
+  intros bs a rest Hb. unfold q_read, q_write.
+  destruct (base_read p nb bs) as [[v0 r0]|] eqn:E0; [|discriminate].
+  destruct (base_read p nb r0) as [[v1 r1]|] eqn:E1; [|discriminate].
+  intros H. injection H as <- <-. cbn [fst snd].
+  destruct (base_read_inv _ _ _ Hb E0) as (B0 & C0 & Hr0).
+  destruct (base_read_inv _ _ _ Hr0 E1) as (B1 & C1 & _).
+  split; [|split; assumption]. rewrite B0, B1, app_assoc. reflexivity.
+Qed.
+
+Theorem c_read_inv : forall bs a rest, (forall b, In b bs -> 0 <= b < 256) ->
+  c_read p nb bs = Some (a, rest) -> bs = c_write nb a ++ rest /\ 0 <= c0 a < p /\ 0 <= c1 a < p /\ 0 <= c2 a < p.
+Proof.
+  intros bs a rest Hb. unfold c_read, c_write.
+  destruct (base_read p nb bs) as [[v0 r0]|] eqn:E0; [|discriminate].
+  destruct (base_read p nb r0) as [[v1 r1]|] eqn:E1; [|discriminate].
+  destruct (base_read p nb r1) as [[v2 r2]|] eqn:E2; [|discriminate].
+  intros H. injection H as <- <-. unfold c0, c1, c2. cbn [fst snd].
+  destruct (base_read_inv _ _ _ Hb E0) as (B0 & C0 & Hr0).
+  destruct (base_read_inv _ _ _ Hr0 E1) as (B1 & C1 & Hr1).
+  destruct (base_read_inv _ _ _ Hr1 E2) as (B2 & C2 & _).
+  split; [|split; [|split]; assumption]. rewrite B0, B1, B2, <- !app_assoc. reflexivity.
+Qed.
 End Serde.
